@@ -24,6 +24,7 @@ from harness import translate_layerb as L
 from harness.translate_layerb import Unsupported, _src
 
 L.LEAN_TYPE.update({
+    "Cls": "String", "ClsOpt": "Option String", "VC": "String", "TRange": "String × List TCon",
     "Str": "List Char", "StrOpt": "Option (List Char)", "StrList": "List (List Char)", "StrPair": "List Char × List Char",
     "Str3": "List Char × List Char × List Char", "TCon": "TCon", "TConList": "List TCon", "Dict2": "List Char × List Char",
 })
@@ -37,6 +38,7 @@ class TextTr(L.Tr):
     hdr = "(mk : List Char → Except TErr (List Char))"
     hargs = "mk"
     err = "TErr"
+    mkarg = "mk"
 
     def expr(self, node, env):
         fn = self.fn
@@ -55,6 +57,12 @@ class TextTr(L.Tr):
             b, bt, bp = self.expr(node.elts[1], env)
             if at == bt == "Str" and ap and bp:
                 return "(%s, %s)" % (a, b), "StrPair", True
+        if isinstance(node, ast.Attribute) and node.attr == "version_class" and isinstance(node.value, ast.Name) and env.get(node.value.id) == "Cls":
+            return "(versionClassOfE %s)" % node.value.id, "VC", False
+        if isinstance(node, ast.List) and not node.elts:
+            return "([] : List TCon)", "TConList", True
+        if isinstance(node, ast.Call) and isinstance(node.func, ast.Name) and node.func.id == "isinstance":
+            return "true", "Bool", True
         if isinstance(node, ast.Attribute) and isinstance(node.value, ast.Name) and env.get(node.value.id) == "TCon":
             if node.attr == "comparator":
                 return "(tconComparator %s)" % node.value.id, "Str", True
@@ -64,10 +72,12 @@ class TextTr(L.Tr):
             t, ty, pure = self.truth(node.operand, env)
             if pure:
                 return "(!%s)" % t, "Bool", True
+            raise Unsupported("negation of an effectful expression")
         if isinstance(node, ast.BoolOp):
             parts = [self.truth(v, env) for v in node.values]
             if all(p[2] for p in parts):
                 return "(" + (" && " if isinstance(node.op, ast.And) else " || ").join(p[0] for p in parts) + ")", "Bool", True
+            raise Unsupported("effectful operand of and/or")
         if isinstance(node, ast.Compare) and len(node.ops) == 1:
             left, op, right = node.left, node.ops[0], node.comparators[0]
             # len(x) + 2 == len(ascii(x))
@@ -98,7 +108,7 @@ class TextTr(L.Tr):
             if isinstance(f, ast.Name) and f.id == "remove_spaces" and len(node.args) == 1:
                 t, ty, p = self.expr(node.args[0], env)
                 if ty == "Str" and p:
-                    return "(py_remove_spaces mk %s)" % t, "Str", False
+                    return "(py_remove_spaces %s %s)" % (self.mkarg, t), "Str", False
             if isinstance(f, ast.Name) and f.id == "str" and len(node.args) == 1:
                 t, ty, p = self.expr(node.args[0], env)
                 if ty == "Str":
@@ -125,23 +135,69 @@ class TextTr(L.Tr):
                     and len(node.args) == 1:
                 t, ty, p = self.expr(node.args[0], env)
                 if ty == "Str" and p:
-                    return "(vc_split mk %s)" % t, "StrPair", False
+                    return "(vc_split %s %s)" % (self.mkarg, t), "StrPair", False
+            if isinstance(f, ast.Attribute) and f.attr == "get" and isinstance(f.value, ast.Name) and f.value.id == "RANGE_CLASS_BY_SCHEMES" \
+                    and len(node.args) == 1:
+                t, ty, p = self.expr(node.args[0], env)
+                if ty == "Str" and p:
+                    return "(registryL.lookup %s)" % t, "ClsOpt", True
+            if isinstance(f, ast.Attribute) and f.attr == "from_string" and isinstance(f.value, ast.Name) and f.value.id == "VersionConstraint":
+                kw = {k.arg: k.value for k in node.keywords}
+                if set(kw) == {"string", "version_class"} and not node.args:
+                    st, sty, sp = self.expr(kw["string"], env)
+                    vt, vty, vp = self.expr(kw["version_class"], env)
+                    if sty == "Str" and vty == "VC" and sp and vp:
+                        return "(vc_from_string (mkVer %s) %s)" % (vt, st), "TCon", False
+            if isinstance(f, ast.Attribute) and f.attr in ("simplify", "validate") and isinstance(f.value, ast.Name) \
+                    and f.value.id == "VersionConstraint" and len(node.args) == 1:
+                t, ty, p = self.expr(node.args[0], env)
+                if ty == "TConList" and p:
+                    return ("(simpT %s)" % t, "TConList", False) if f.attr == "simplify" else ("(valT %s)" % t, "Bool", False)
+            if isinstance(f, ast.Attribute) and f.attr == "is_star" and not node.args:
+                t, ty, p = self.expr(f.value, env)
+                if ty == "TCon" and p:
+                    return "(Con.isStar %s)" % t, "Bool", True
+            if isinstance(f, ast.Name) and env.get(f.id) == "Cls" and len(node.args) == 1 and not node.keywords:
+                # range_class(constraints): the range, as (class name, constraints)
+                a = node.args[0]
+                if isinstance(a, ast.List) and len(a.elts) == 1:
+                    t, ty, p = self.expr(a.elts[0], env)
+                    if ty == "TCon":
+                        if p:
+                            return "(%s, [%s])" % (f.id, t), "TRange", True
+                        v = fn.tmp()
+                        return "(%s >>= fun %s => .ok (%s, [%s]))" % (t, v, f.id, v), "TRange", False
+                t, ty, p = self.expr(a, env)
+                if ty == "TConList" and p:
+                    return "(%s, %s)" % (f.id, t), "TRange", True
             if isinstance(f, ast.Attribute):
                 t, ty, p = self.expr(f.value, env)
-                if ty == "Str" and p:
+                if ty == "Str" and p and f.attr == "partition" and len(node.args) == 1 and isinstance(node.args[0], ast.Constant) \
+                        and isinstance(node.args[0].value, str) and len(node.args[0].value) == 1:
+                    return "(partitionChar '%s' %s)" % (node.args[0].value, t), "Str3", True
+                if ty == "Str" and p and f.attr == "split" and len(node.args) == 1 and isinstance(node.args[0], ast.Constant) \
+                        and isinstance(node.args[0].value, str) and len(node.args[0].value) == 1:
+                    return "(splitChar '%s' %s)" % (node.args[0].value, t), "StrList", True
+                if ty == "Str":
                     args = [self.expr(a, env) for a in node.args]
                     if all(a[1] == "Str" and a[2] for a in args):
                         a0 = args[0][0] if args else None
+                        recv = t if p else fn.tmp()
+                        out = None
                         if f.attr == "startswith" and len(args) == 1:
-                            return "(startsWith %s %s)" % (t, a0), "Bool", True
-                        if f.attr == "lstrip" and len(args) == 1:
-                            return "(lstripSet %s %s)" % (a0, t), "Str", True
-                        if f.attr == "strip" and len(args) == 1:
-                            return "(stripSet %s %s)" % (a0, t), "Str", True
-                        if f.attr == "strip" and not args:
-                            return "(stripWs %s)" % t, "Str", True
-                        if f.attr == "lower" and not args:
-                            return "(lower %s)" % t, "Str", True
+                            out = ("(startsWith %s %s)" % (recv, a0), "Bool")
+                        elif f.attr == "lstrip" and len(args) == 1:
+                            out = ("(lstripSet %s %s)" % (a0, recv), "Str")
+                        elif f.attr == "strip" and len(args) == 1:
+                            out = ("(stripSet %s %s)" % (a0, recv), "Str")
+                        elif f.attr == "strip" and not args:
+                            out = ("(stripWs %s)" % recv, "Str")
+                        elif f.attr == "lower" and not args:
+                            out = ("(lower %s)" % recv, "Str")
+                        if out is not None:
+                            if p:
+                                return out[0], out[1], True
+                            return "(%s >>= fun %s => .ok %s)" % (t, recv, out[0]), out[1], False
             raise Unsupported("call " + _src(node))
         if isinstance(node, ast.JoinedStr):
             # f"{a}{b}": concatenation of strings
@@ -165,6 +221,8 @@ class TextTr(L.Tr):
             return t, ty, pure
         if ty == "Str" and pure:
             return "(!(%s).isEmpty)" % t, "Bool", True
+        if ty == "ClsOpt" and pure:
+            return "(%s).isSome" % t, "Bool", True
         raise Unsupported("truth value of %s" % ty)
 
     def bind_target(self, target, ity, env):
@@ -173,6 +231,48 @@ class TextTr(L.Tr):
             env2[target.id] = "Str"
             return env2, target.id
         raise Unsupported("loop target %s over %s" % (_src(target), ity))
+
+
+class RangeTextTr(TextTr):
+    """`VersionRange.from_string`: the version classes are `mkVer` (class name -> constructor), sorting / simplifying /
+    validating the parsed constraints are Layer B and are the parameters `sortT`, `simpT`, `valT`"""
+    hdr = ("(mkVer : MkVer) (sortT simpT : List TCon → Except TErr (List TCon)) (valT : List TCon → Except TErr Bool)")
+    hargs = "mkVer sortT simpT valT"
+    mkarg = '(mkVer "")'     # `remove_spaces` takes no version class: any will do
+
+    def block(self, stmts, env, fall):
+        if stmts:
+            s0, rest = stmts[0], stmts[1:]
+            # `if not range_class: raise …` on an optional class: the rest sees the class
+            if isinstance(s0, ast.If) and not s0.orelse and isinstance(s0.test, ast.UnaryOp) and isinstance(s0.test.op, ast.Not) \
+                    and isinstance(s0.test.operand, ast.Name) and env.get(s0.test.operand.id) == "ClsOpt" \
+                    and isinstance(s0.body[-1], ast.Raise):
+                n = s0.test.operand.id
+                env2 = dict(env)
+                env2[n] = "Cls"
+                return "match %s with\n| none =>\n%s\n| some %s =>\n%s" % (
+                    n, L._ind(self.block(s0.body, env, fall)), n, L._ind(self.block(rest, env2, fall)))
+            # xs.sort()
+            if isinstance(s0, ast.Expr) and isinstance(s0.value, ast.Call) and isinstance(s0.value.func, ast.Attribute) \
+                    and s0.value.func.attr == "sort" and isinstance(s0.value.func.value, ast.Name) \
+                    and env.get(s0.value.func.value.id) == "TConList" and not s0.value.args:
+                n = s0.value.func.value.id
+                return "(sortT %s) >>= fun %s =>\n%s" % (n, n, self.block(rest, env, fall))
+            # a call evaluated for its exception only: VersionConstraint.validate(xs)
+            if isinstance(s0, ast.Expr) and isinstance(s0.value, ast.Call) and not (isinstance(s0.value.func, ast.Attribute)
+                                                                                   and s0.value.func.attr in ("append", "sort")):
+                t, ty, p = self.expr(s0.value, env)
+                if not p:
+                    return "%s >>= fun _ =>\n%s" % (t, self.block(rest, env, fall))
+            # xs.append(x) for a list of constraints
+            if isinstance(s0, ast.Expr) and isinstance(s0.value, ast.Call) and isinstance(s0.value.func, ast.Attribute) \
+                    and s0.value.func.attr == "append" and isinstance(s0.value.func.value, ast.Name) \
+                    and env.get(s0.value.func.value.id) == "TConList" and len(s0.value.args) == 1:
+                n = s0.value.func.value.id
+                t, ty, p = self.expr(s0.value.args[0], env)
+                if ty == "TCon" and p:
+                    return "let %s : List TCon := (%s ++ [%s])\n" % (n, n, t) + self.block(rest, env, fall)
+        return super().block(stmts, env, fall)
 
 
 def _ascii_idiom(node):
@@ -205,6 +305,8 @@ JOBS = [
      ["PyTextSplit"]),
     ("version_constraint.py", "__str__", "VersionConstraint", "PyTextConStr", "vc_str", [("self", "TCon")], "Str", []),
     ("version_constraint.py", "to_dict", "VersionConstraint", "PyTextConToDict", "vc_to_dict", [("self", "TCon")], "Dict2", []),
+    ("version_range.py", "from_string", "VersionRange", "PyTextRangeFromString", "vr_from_string",
+     [("vers", "Str"), ("simplify", "Bool"), ("validate", "Bool")], "TRange", ["PyTextConFromString"]),
 ]
 
 
@@ -220,7 +322,8 @@ def generate(src_dir):
                 trees[src] = ast.parse(open(os.path.join(src_dir, src)).read())
             fdef = L._find(trees[src], pyname, cls)
             # parameters the typed model does not have (`cls`, `version_class`) are not Lean parameters
-            text = L.translate_function(fdef, lean, params, ret, {}, {}, src, tr_class=TextTr)
+            text = L.translate_function(fdef, lean, params, ret, {}, {}, src,
+                                        tr_class=RangeTextTr if lean == "vr_from_string" else TextTr)
             out.append(text)
             status["text:" + key] = "translated"
         except (Unsupported, StopIteration, OSError) as e:
